@@ -211,6 +211,15 @@ theorem sx_sy_ladder (sites t s : Nat) :
   simp only [melF_den]
   exact ⟨den_sx sites s t, den_sy sites s t⟩
 
+/-- the docstring formulas `s_plus_operator(n) = Σ_i a†_{up i} a_{down i}`, `s_minus_operator(n) = Σ_i a†_{down i} a_{up i}`:
+the Model operators built with `+=` have the Spec matrix elements of these sums, for every number of sites. -/
+theorem s_plus_s_minus_formula (sites t s : Nat) :
+    melF (sPlus 0 sites) t s =
+      melF ((List.range sites).map fun i => ([(upIndex i, 1), (downIndex i, 0)], (1 : GQ))) t s ∧
+    melF (sMinus 0 sites) t s =
+      melF ((List.range sites).map fun i => ([(downIndex i, 1), (upIndex i, 0)], (1 : GQ))) t s :=
+  ladder_formulas sites t s
+
 /-- `s_squared_operator = S^- S^+ + S^z (S^z + 1)` as an operator, for every number of sites: its matrix element is
 the composition (right factor first; `Sem.sumF b s W` applies the terms of `b` to `|s⟩` with the Spec action and
 weights the images by `W`) of the Model's `s_plus`, `s_minus`, `sz` operators. -/
